@@ -23,6 +23,14 @@ parsed (fixed columns, as vermouth writes it) and compared with
     finite, and for the density case edge^3 * density / 1.6605410 = total mass (rel. 1e-4: the edge is
     rounded to 5 decimals and printed).
 
+Stream `start-grid` (no gen_coords run): the default start grid of the REAL `BuildSystem.__init__`
+(`np.mgrid[0:box:spacing]` x3 + the `< box` filter of fix 28d4aca) for (a) every (edge, spacing) pair of a
+one-dimensional dyadic domain on each axis in turn -- exhaustive, exact multiples / edge < spacing / edge =
+spacing included -- and random three-dimensional dyadic boxes: correspondence with `Coords.startGrid` (float
+arithmetic is exact on these inputs) AND the specification `Coords.specGrid` (grid not empty, every point in
+[0, box) in every dimension: `C03_grid_inside`, `C03_grid_nonempty`, `C03_grid_filter`); (b) decimal boxes and
+spacings that are not exact in double (2.1 / 0.3, the input of the repaired defect, first): specification only.
+
 Trusted / modelled: float `**(1/3.)` and `round(., 5)` (evaluated by this harness on the model's exact
 volume), vermouth's .gro writer and reader, template generation and scipy's optimiser (a non-finite
 coordinate they produce would be reported by the oracle), numpy.random.
@@ -41,7 +49,8 @@ from common import rat_str, frac
 RULE = ("complete gen_coords runs: 1-4 molecule types x [molecules] lines with counts 1-3 (names may repeat on "
         "non-adjacent lines) x residues of 1-3 atoms (virtual sites, explicit / atom-type masses) x option "
         "combinations of -box/-dens/-c/-mc/-res/-grid/-start x seeds; non-trivial when the system has more "
-        "than one atom; distinct = full input description")
+        "than one atom; distinct = full input description; start grid: all 168 (edge, spacing) pairs of the dyadic "
+        "1-D domain (exhaustive) + random dyadic 3-D boxes + decimal boxes")
 
 MASSES = {"CA": 12.0, "CB": 15.0, "CC": 36.5, "VS": 0.0, "VM": 72.0}
 VIRTUAL = ("VS", "VM")
@@ -109,6 +118,19 @@ def gen_case(rng, thorough):
             names = sorted({r["resname"] for t in types for r in t["residues"]})
             opts["build_res"] = [rng.choice(names)]
         opts["input_seed"] = rng.randint(0, 10 ** 6)
+        # -ign: a molecule type whose instances are all given in the input structure (and none of whose
+        # residues is rebuilt with -res) is left alone; it is still part of the output, in topology order
+        if opts["input_kind"] == "full" and rng.random() < 0.45:
+            rebuilt = set(opts.get("build_res", []))
+            names = sorted({m[0] for m in molecules})
+            ok = [n for n in names
+                  if not any(r["resname"] in rebuilt for t in types if t["name"] == n for r in t["residues"])]
+            # ignoring EVERY molecule of the system makes gen_coords raise (notes/C03_findings.md, O1): such
+            # cases are only generated with VERIF_C03_ALL_IGNORED=1
+            if len(names) < 2 and os.environ.get("VERIF_C03_ALL_IGNORED") != "1":
+                ok = []
+            if ok:
+                opts["ignore"] = [rng.choice(ok)]
     if rng.random() < 0.25:
         opts["grid"] = rng.randint(5, 40)
         opts["grid_seed"] = rng.randint(0, 10 ** 6)
@@ -119,7 +141,12 @@ def gen_case(rng, thorough):
         opts["start"] = ["%s-%s#%d" % (name, t["residues"][r]["resname"], t["resid0"] + r)]
     if rng.random() < 0.2:
         opts["grid_spacing"] = rng.choice([0.5, 1.0])
-    return dict(types=types, molecules=molecules, opts=opts, seed=rng.randint(0, 10 ** 6))
+    case = dict(types=types, molecules=molecules, opts=opts, seed=rng.randint(0, 10 ** 6))
+    if rng.random() < 0.15:
+        # the same topology spread over include files in a sub-directory, with a look-alike file in the
+        # working directory (see write_top); what is expanded and written must not change
+        case["layout"] = "include-nested"
+    return case
 
 
 def gen_interleaved(rng):
@@ -234,10 +261,29 @@ def type_atoms(t):
 
 
 def write_top(path, case):
-    with open(path, "w") as out:
-        out.write("[ defaults ]\n1 1 no 1.0 1.0\n[ atomtypes ]\n")
+    """`layout` = None: one file.  "include-nested": the molecule types live in ff/mols.itp, included by
+    ff/main.itp as "mols.itp" (relative to the INCLUDING file, as in GROMACS), which system.top includes as
+    "ff/main.itp"; the directory of system.top (the working directory of the run) holds a DECOY mols.itp that
+    defines the same names with a single atom each -- it must not be read."""
+    layout = case.get("layout")
+    if layout == "include-nested":
+        base = os.path.dirname(path)
+        os.makedirs(os.path.join(base, "ff"), exist_ok=True)
+        with open(os.path.join(base, "ff", "main.itp"), "w") as out:
+            out.write('#include "mols.itp"\n')
+        with open(os.path.join(base, "mols.itp"), "w") as out:
+            for t in case["types"]:
+                out.write("[ moleculetype ]\n%s 1\n[ atoms ]\n1 CA 1 DECOY D1 1 0.0 12.0\n" % t["name"])
+        mol_path = os.path.join(base, "ff", "mols.itp")
+    else:
+        mol_path = None
+    with open(path, "w") as top_out:
+        top_out.write("[ defaults ]\n1 1 no 1.0 1.0\n[ atomtypes ]\n")
         for atype, mass in MASSES.items():
-            out.write("%s %g 0.0 %s 0.0026 2.6e-06\n" % (atype, mass, "V" if atype == "VS" else "A"))
+            top_out.write("%s %g 0.0 %s 0.0026 2.6e-06\n" % (atype, mass, "V" if atype == "VS" else "A"))
+        if mol_path is not None:
+            top_out.write('#include "ff/main.itp"\n')
+        out = open(mol_path, "w") if mol_path is not None else top_out
         for t in case["types"]:
             out.write("[ moleculetype ]\n%s 1\n[ atoms ]\n" % t["name"])
             idx, bonds, vsn, ends = 0, [], [], []
@@ -263,9 +309,11 @@ def write_top(path, case):
                 out.write("[ virtual_sitesn ]\n")
                 for i, real in vsn:
                     out.write("%d 1 %s\n" % (i, " ".join(map(str, real))))
-        out.write("[ system ]\nverif\n[ molecules ]\n")
+        if mol_path is not None:
+            out.close()
+        top_out.write("[ system ]\nverif\n[ molecules ]\n")
         for name, count in case["molecules"]:
-            out.write("%s %d\n" % (name, count))
+            top_out.write("%s %d\n" % (name, count))
 
 
 def expanded(case):
@@ -364,6 +412,8 @@ def real_run(case, timeout):
         kwargs["coordpath_meta" if opts["input_kind"] == "meta" else "coordpath"] = Path(inp)
         if opts.get("build_res"):
             kwargs["build_res"] = list(opts["build_res"])
+        if opts.get("ignore"):
+            kwargs["ignore"] = list(opts["ignore"])
     if "grid" in opts:
         rng = random.Random(opts["grid_seed"])
         ref = (opts.get("input_box") if "input_kind" in opts else None) or opts.get("box") or [approx_edge(case)] * 3
@@ -392,6 +442,9 @@ def real_run(case, timeout):
         random_walk.RandomWalk.update_positions = update_positions
     np.random.seed(case["seed"])
     random.seed(case["seed"])
+    cwd = os.getcwd()
+    if case.get("layout"):
+        os.chdir(tmp)            # polyply is run from the directory of the topology
     old = signal.signal(signal.SIGALRM, _alarm)
     signal.setitimer(signal.ITIMER_REAL, timeout, 1.0)
     res = dict()
@@ -408,9 +461,9 @@ def real_run(case, timeout):
         signal.setitimer(signal.ITIMER_REAL, 0)
         signal.signal(signal.SIGALRM, old)
         random_walk.RandomWalk.update_positions = orig_update
-        for name in os.listdir(tmp):
-            os.remove(os.path.join(tmp, name))
-        os.rmdir(tmp)
+        os.chdir(cwd)
+        import shutil
+        shutil.rmtree(tmp, ignore_errors=True)
     return res
 
 
@@ -454,7 +507,7 @@ def judge(ctx, case, res, answers, box_ans):
     key = json.dumps(case, sort_keys=True) if natoms > 1 else None
     if "fail_calls" in case["opts"]:
         ctx.tally(stream=case["opts"].get("stream") or ("crowded" if case["opts"].get("slab") else "giveup" if "maxiter" in case["opts"] else "interleaved"))
-    hist = dict(mode=case["opts"]["mode"], status=status, types=len(case["types"]), lines=len(case["molecules"]),
+    hist = dict(layout=case.get("layout") or "one-file", ignore=bool(case["opts"].get("ignore")), mode=case["opts"]["mode"], status=status, types=len(case["types"]), lines=len(case["molecules"]),
                 grid="grid" in case["opts"], start="start" in case["opts"],
                 input=case["opts"].get("input_kind", "-"), res="build_res" in case["opts"])
     model_box = box_ans.get("box")
@@ -513,6 +566,104 @@ def judge(ctx, case, res, answers, box_ans):
     ctx.traces += 1
 
 
+# ------------------------------------------------------------------------------------------ start grid
+
+GRID_SPACINGS = [fractions.Fraction(k, 8) for k in (1, 2, 3, 4, 6, 8, 10)]
+GRID_EDGES = [fractions.Fraction(k, 8) for k in range(1, 25)]
+# decimal inputs (not exact in double): judged by the specification only.  (2.1, 0.3) is the input of the
+# defect repaired by 28d4aca: 2.1 / 0.3 rounds to 7.000000000000001, 8 points, the last one 7 * 0.3 == 2.1
+GRID_DECIMAL = [(2.1, 0.3), (0.9, 0.3), (1.2, 0.1), (3.3, 1.1), (0.7, 0.1), (1.5, 0.3), (2.4, 0.2), (0.6, 0.2),
+                (4.2, 0.7), (1.8, 0.6), (5.1, 1.7), (0.3, 0.1), (2.7, 0.9), (1.4, 0.2), (3.6, 1.2), (6.3, 2.1)]
+
+
+def real_grid(box, spacing):
+    """the default `box_grid` of the REAL `BuildSystem.__init__` (box given, no grid given)"""
+    import types
+    import numpy as np
+    from polyply.src.build_system import BuildSystem
+    topology = types.SimpleNamespace(molecules=[], atom_types={}, box=None)
+    builder = BuildSystem(topology, density=None, start_dict={}, grid_spacing=float(spacing),
+                          box=np.array([float(x) for x in box]))
+    grid = np.asarray(builder.box_grid)
+    return [[rat_str(v) for v in row] for row in grid.tolist()], [rat_str(x) for x in topology.box]
+
+
+def grid_cases(ctx):
+    """(kind, box, spacing): `exact` = dyadic box and spacing (float arithmetic is exact: correspondence with the
+    model AND the specification), `decimal` = specification only"""
+    rng = ctx.rng
+    cases = []
+    # every (edge, spacing) pair of the one-dimensional domain, on each axis in turn (the two other axes have
+    # a single point): exact multiples, edge < spacing, edge = spacing included -- exhaustive
+    for n, (edge, s) in enumerate((e, s) for s in GRID_SPACINGS for e in GRID_EDGES):
+        box = [s / 2, s / 2, s / 2]
+        box[n % 3] = edge
+        cases.append(("exact", box, s, "1d-exhaustive"))
+    for _ in range(ctx.budget(40, 400)):
+        s = rng.choice(GRID_SPACINGS)
+        box = [rng.choice(GRID_EDGES) for _ in range(3)]
+        if rng.random() < 0.5:
+            box[rng.randrange(3)] = s * rng.randint(1, 6)          # an exact multiple of the spacing
+        while (box[0] / s + 1) * (box[1] / s + 1) * (box[2] / s + 1) > 1500:
+            box[rng.randrange(3)] = s
+        cases.append(("exact", box, s, "3d-random"))
+    for b, s in GRID_DECIMAL:
+        cases.append(("decimal", [b, s, s], s, "decimal"))
+        cases.append(("decimal", [s, b, b], s, "decimal"))
+    for _ in range(ctx.budget(20, 300)):
+        s = rng.choice([0.1, 0.2, 0.3, 0.6, 0.7, 0.9, 1.1, 1.3])
+        box = [round(s * rng.randint(1, 9), 10) if rng.random() < 0.7 else round(rng.uniform(0.3, 4.0), 2)
+               for _ in range(3)]
+        while (box[0] / s + 2) * (box[1] / s + 2) * (box[2] / s + 2) > 1500:
+            box[rng.randrange(3)] = s
+        cases.append(("decimal", box, s, "decimal"))
+    return cases
+
+
+def run_grid(ctx, cases):
+    """stream `start-grid`: the default start grid of the real BuildSystem vs `Coords.startGrid`, and
+    `Coords.specGrid` (every point in [0, box) in every dimension, grid not empty) on the real grid"""
+    done, reqs = [], []
+    for kind, box, s, sub in cases:
+        replay = dict(kind="grid", grid_kind=kind, box=[rat_str(x) for x in box], spacing=rat_str(s), sub=sub)
+        try:
+            with common.time_limit(20):
+                points, top_box = real_grid(box, s)
+        except Exception as err:  # pylint: disable=broad-except
+            ctx.oracle_fail("start-grid-raised", "BuildSystem.__init__ raised %s: %s for box %s spacing %s"
+                            % (type(err).__name__, err, [float(x) for x in box], float(s)), replay)
+            continue
+        done.append((kind, box, s, sub, replay, points, top_box))
+        reqs.append(dict(op="spec_grid", box=[rat_str(x) for x in box], points=points))
+        if kind == "exact":
+            reqs.append(dict(op="grid", box=[rat_str(x) for x in box], spacing=rat_str(s)))
+    answers = ctx.driver.ask(reqs) if reqs else []
+    pos = 0
+    for kind, box, s, sub, replay, points, top_box in done:
+        spec = answers[pos]
+        pos += 1
+        if kind == "exact":
+            model = answers[pos]
+            pos += 1
+            ctx.correspond("start-grid", sorted(points), sorted(model["points"]), replay)
+        ctx.correspond("start-grid-box", top_box, [rat_str(x) for x in box], replay)
+        if not spec["holds"]:
+            what = "is empty" if spec["empty"] else "holds the point %s outside [0, box)" % (
+                [float(fractions.Fraction(x)) for x in spec["outside"][0]],)
+            ctx.oracle_fail("start-grid-point-outside-box",
+                            "the default start grid of BuildSystem for box %s, grid spacing %s %s (%d points): a "
+                            "molecule started there is not inside the periodic box"
+                            % ([float(x) for x in box], float(s), what, len(points)), replay)
+        ratio = [fractions.Fraction(x) / fractions.Fraction(s) for x in box] if kind == "exact" else []
+        ctx.case(("grid", kind, tuple(rat_str(x) for x in box), rat_str(s)), stream="start-grid:" + sub,
+                 grid_edge=("multiple-of-spacing" if any(r.denominator == 1 for r in ratio) else
+                            "below-spacing" if any(r < 1 for r in ratio) else "general") if ratio else "decimal",
+                 grid_points=("1" if len(points) == 1 else "2-20" if len(points) <= 20 else "21-300"
+                              if len(points) <= 300 else ">300"))
+    if any(sub == "1d-exhaustive" for _, _, _, sub in cases):
+        ctx.tally(**{"start_grid_1d(edge x spacing, %d pairs)" % (len(GRID_EDGES) * len(GRID_SPACINGS)): "exhaustive"})
+
+
 # ------------------------------------------------------------------------------------------ running
 
 def run_cases(ctx, cases, timeout=None):
@@ -557,8 +708,12 @@ def run(ctx):
     ctx.assumptions += [
         "supplied structures are complete per residue, inside the box and finite (what gen_coords accepts)",
         "runs that do not terminate within the time limit (box too small for the molecules) are counted, not judged",
-        "C03_all_positioned takes the completeness of a successful random walk (C17) as a hypothesis"]
+        "C03_all_positioned uses C17_complete as a theorem (no hypothesis about the walk); its residue data satisfy "
+        "what add_positions_from_file guarantees (C04_consume) and ignored molecules are completely supplied",
+        "start-grid: numpy's mgrid has ceil((stop-start)/step) points start + i*step (numpy.lib.index_tricks.nd_grid); "
+        "on dyadic inputs the model's exact arithmetic equals the float arithmetic"]
     ctx.extra["explanation"] = "level_note: partial — float cube root / rounding and optimiser finiteness are trusted"
+    run_grid(ctx, grid_cases(ctx))
     cases = corpus_cases()
     cases += [gen_crowded(ctx.rng) for _ in range(ctx.budget(1, 2))]
     cases += [gen_interleaved(ctx.rng) for _ in range(ctx.budget(24, 300))]
@@ -580,6 +735,10 @@ def replay(ctx, data):
         cases = [i["input"] for i in data.get("no_longer_checks", []) if i.get("input")]
     else:
         cases = [data.get("input") or data]
+    grids = [c for c in cases if isinstance(c, dict) and c.get("kind") == "grid"]
+    if grids:
+        run_grid(ctx, [(c["grid_kind"], [fractions.Fraction(x) for x in c["box"]], fractions.Fraction(c["spacing"]),
+                        c.get("sub", "replay")) for c in grids])
     run_cases(ctx, [c for c in cases if isinstance(c, dict) and "types" in c], timeout=60.0)
     for b in ctx.broken:
         print("REPLAY-DISAGREES", b["name"], b["detail"][:400])
